@@ -488,7 +488,7 @@ impl OutputFormat for IcyDraw {
                                                         layer.set_char(
                                                             (x, y),
                                                             crate::AttributedChar {
-                                                                ch: unsafe { char::from_u32_unchecked(ch) },
+                                                                ch: char::from_u32(ch).unwrap_or(' '),
                                                                 attribute: crate::TextAttribute {
                                                                     foreground_color: fg,
                                                                     background_color: bg,
@@ -663,7 +663,7 @@ impl OutputFormat for IcyDraw {
                                                 layer.set_char(
                                                     (x, y),
                                                     crate::AttributedChar {
-                                                        ch: unsafe { char::from_u32_unchecked(ch) },
+                                                        ch: char::from_u32(ch).unwrap_or(' '),
                                                         attribute: crate::TextAttribute {
                                                             foreground_color: fg,
                                                             background_color: bg,
